@@ -2420,5 +2420,41 @@ theorem transpose_transpose_toRows (m : Matrix α) (h : m.Inv) :
     rw [cell_transpose_toRows t hinv i j (by rw [htc]; exact hi) (by rw [htr]; exact hj),
       ← cell_toRows t j i, ht, cell_transpose_toRows m h j i hj hi, cell_toRows]
 
+/-! ## 17. layout: the storage is the concatenation of the rows, offset `r·columns + c` -/
+
+theorem flatten_getElem?_rect {c : Nat} (rs : Rows α) (h : Rect c rs) (i j : Nat)
+    (hi : i < rs.length) (hj : j < c) : rs.flatten[i * c + j]? = Rows.cell rs i j := by
+  have h1 := cell_toRows (ofRows rs c) i j
+  rw [toRows_ofRows rs h] at h1
+  rw [h1]
+  simp only [tryGet, ofRows, getIndex, hi, hj, and_self, if_true, Nat.add_comm]
+
+theorem range_filterMap_getElem? (l : List α) :
+    (List.range l.length).filterMap (fun n => l[n]?) = l := by
+  induction l with
+  | nil => rfl
+  | cons a l ih =>
+    simp only [List.length_cons, List.range_succ_eq_map, List.filterMap_cons,
+      List.getElem?_cons_zero, List.filterMap_map]
+    congr 1
+
+/-- walking the index pairs in row-major order and reading through the checked getter
+    reproduces the storage -/
+theorem rowMajor_tryGet_eq_data (m : Matrix α) (h : m.Inv) :
+    (indexPairs m.rows m.columns).filterMap (fun p => m.tryGet p.1 p.2) = m.data := by
+  rw [indexPairs_eq_range_map m.rows m.columns h.2.2, List.filterMap_map, ← h.1]
+  refine Eq.trans ?_ (range_filterMap_getElem? m.data)
+  apply filterMap_congr'
+  intro n hn
+  have hn' : n < m.rows * m.columns := by rw [← h.1]; exact List.mem_range.mp hn
+  have hc : 0 < m.columns := h.2.2
+  have hr : n / m.columns < m.rows :=
+    (Nat.div_lt_iff_lt_mul hc).mpr hn'
+  simp only [Function.comp, tryGet, getIndex, hr, Nat.mod_lt n hc, and_self, if_true]
+  congr 1
+  have := Nat.div_add_mod n m.columns
+  rw [Nat.mul_comm] at this
+  omega
+
 end Matrix
 end EasyMl
